@@ -1,6 +1,7 @@
 """C31 - client-side timestamps strictly increase across all threads.
 
-Spec: spec/Timestamps.tla (threads x calls x nondeterministic clock; Acquire / ReadClock / Compute / Release).
+Spec: spec/Timestamps.tla (threads x calls x nondeterministic clock x generator configuration - warn_on_drift,
+      warning threshold / interval -; Acquire / ReadClock / Compute (+ warning) / Release).
 TLC : exhaustive for N=3, K=2, M=3 (quick: N=3, K=2, M=1 plus the instances whose graphs are replayed), invariants Mutex, StrictlyIncreasing,
       NotBehindClock, LastIsMax; termination.
 Bind: spec -> code: every edge of the state graphs of smaller instances replayed into the real generator under
@@ -35,8 +36,10 @@ META = {
     "design_ref": "5.6 C31",
 }
 
-INV = ["TypeOK", "Mutex", "StrictlyIncreasing", "NotBehindClock", "LastIsMax"]
-WITNESSES = ["Drift", "BackwardsClock", "Contention", "AllDone"]
+INV = ["TypeOK", "Mutex", "StrictlyIncreasing", "NotBehindClock", "LastIsMax", "ConfIrrelevant"]
+WITNESSES = ["Drift", "BackwardsClock", "Contention", "AllDone", "Warned", "DriftTwiceSilently"]
+ALL, DEFAULT, EAGER = "<- AllConfs", "<- DefaultConf", "<- EagerConfs"      # generator configurations (Timestamps.tla)
+CONFS = [{"warn": w, "eager": e} for w in (True, False) for e in (False, True)]
 
 
 def cfg_for(ctx, name, consts, invariants=INV, **kw):
@@ -46,7 +49,9 @@ def cfg_for(ctx, name, consts, invariants=INV, **kw):
 
 def run(ctx):
     # ---- the specification, exhaustively
-    big = [{"N": 3, "K": 2, "M": 1}] if ctx.quick else [{"N": 3, "K": 2, "M": 3}]
+    big = [{"N": 3, "K": 2, "M": 1, "Confs": ALL}] if ctx.quick else \
+          [{"N": 3, "K": 2, "M": 3, "Confs": DEFAULT}, {"N": 3, "K": 2, "M": 2, "Confs": ALL}]
+    reached = set()
     for consts in big:
         res = tlc.check_model("Timestamps", cfg_for(ctx, "ts_big", consts, next="NextW"), ctx.scratch, coverage=True,
                               timeout=1500)
@@ -60,13 +65,15 @@ def run(ctx):
         zero = [a for a in ("Acquire", "ReadClock", "Compute", "Release") if a not in cov or cov[a][1] == 0]
         if zero:
             raise tlc.MachineryError("actions never taken: %s (coverage keys %s)" % (zero, sorted(cov)))
-        unreached = [w for w in WITNESSES if cov.get("W_" + w, (0, 0))[1] == 0]
-        if unreached:
-            raise tlc.MachineryError("vacuity witnesses not reachable: %s" % unreached)
+        reached.update(w for w in WITNESSES if cov.get("W_" + w, (0, 0))[1] > 0)
+    if reached != set(WITNESSES):
+        raise tlc.MachineryError("vacuity witnesses not reachable: %s" % sorted(set(WITNESSES) - reached))
     ctx.note("vacuity_witnesses_reached", len(WITNESSES))
     # ---- spec -> code: every edge of the state graph of small instances
-    small = [{"N": 2, "K": 2, "M": 2}, {"N": 3, "K": 1, "M": 2}] if ctx.quick else \
-            [{"N": 2, "K": 2, "M": 3}, {"N": 3, "K": 1, "M": 3}, {"N": 3, "K": 2, "M": 1}]
+    # (every generator configuration: warn_on_drift on / off x warning threshold & interval 0 / default)
+    small = [{"N": 2, "K": 2, "M": 2, "Confs": EAGER}, {"N": 3, "K": 1, "M": 2, "Confs": ALL}] if ctx.quick else \
+            [{"N": 2, "K": 2, "M": 3, "Confs": ALL}, {"N": 3, "K": 1, "M": 3, "Confs": ALL},
+             {"N": 3, "K": 2, "M": 1, "Confs": EAGER}]
     replayed = blocked_total = diverged = 0
     all_covered = True
     seen = set()
@@ -98,7 +105,7 @@ def run(ctx):
             order = [a["t"] for a in acts if a["name"] == "Acquire"]
             vs = [a["v"] for a in acts if a["name"] == "ReadClock"]
             if len(set(order)) > 1 and vs != sorted(vs):
-                ctx.nontrivial(("walk", consts["N"], consts["K"], tuple(order), tuple(vs)))
+                ctx.nontrivial(("walk", consts["N"], consts["K"], tuple(sorted(states[0]["conf"].items())), tuple(order), tuple(vs)))
             if replayed % 400 == 1:
                 ctx.sample({"direction": "spec->code", "constants": consts, "actions": acts})
             if d:
@@ -125,23 +132,23 @@ def run(ctx):
             raise tlc.MachineryError("binding self-test failed: corrupted expectation not detected by the replayer")
 
     # ---- code -> spec: random line-level schedules
-    tconsts = {"N": 3, "K": 2, "M": 3} if ctx.quick else {"N": 3, "K": 3, "M": 5}
+    tconsts = {"N": 3, "K": 2, "M": 3, "Confs": ALL} if ctx.quick else {"N": 3, "K": 3, "M": 5, "Confs": ALL}
     n_tr = 200 if ctx.quick else 3000
     traces, rets = [], []
     for _ in range(n_tr):
-        t, r = rt.record(tconsts, ctx.rng)
+        t, r = rt.record(tconsts, ctx.rng, conf=ctx.rng.choice(CONFS))
         traces.append(t)
         rets.append(r)
     good = len(traces)
     # sensitivity self-test: the same generator with a lock that does not lock
-    nolock = [rt.record(tconsts, ctx.rng, null_lock=True) for _ in range(40)]
+    nolock = [rt.record(tconsts, ctx.rng, null_lock=True, conf=ctx.rng.choice(CONFS)) for _ in range(40)]
     dup = sum(1 for _, r in nolock if len(set(r)) < len(r))
     # binding self-test (traces): corrupted value, read moved before its acquire
     victim = copy.deepcopy(traces[0])
     i_set = next(i for i, e in enumerate(victim) if e["e"] == "set")
     victim[i_set]["x"] += 1
     swapped = copy.deepcopy(traces[0])
-    swapped[0], swapped[1] = swapped[1], swapped[0]
+    swapped[1], swapped[2] = swapped[2], swapped[1]
     extra = [victim, swapped] + [t for t, _ in nolock]
     tcfg = tlc.write_cfg(os.path.join(ctx.scratch, "trace.cfg"), init="TraceInit", next="TraceNext", constants=tconsts,
                          invariants=INV, constraints=["Progress"], postcondition="Done", deadlock=False)
@@ -159,7 +166,7 @@ def run(ctx):
             reads = [e["v"] for e in t if e["e"] == "read"]
             order = [e["t"] for e in t if e["e"] == "acq"]
             if reads != sorted(reads) and len(set(order[:3])) > 1:
-                ctx.nontrivial(("trace", tuple(order), tuple(reads)))
+                ctx.nontrivial(("trace", t[0]["warn"], t[0]["eager"], tuple(order), tuple(reads)))
             continue
         pos = min(prog[i], len(t))
         ev = t[pos - 1]
@@ -171,7 +178,7 @@ def run(ctx):
                           signature=sig)
     if accepted == good:
         # the self-tests are meaningful only when the unmodified recordings are behaviours of the spec
-        if prog[good] != i_set + 1 or prog[good + 1] != 1:
+        if prog[good] != i_set + 1 or prog[good + 1] != 2:
             raise tlc.MachineryError("binding self-test failed: corrupted / reordered trace accepted (%s, %s)"
                                      % (prog[good], prog[good + 1]))
         rejected_nolock = sum(1 for j, (t, _) in enumerate(nolock) if prog[good + 2 + j] != len(t) + 1)
@@ -191,6 +198,7 @@ def run(ctx):
     ctx.assumptions += [
         "pre-emption at source-line granularity inside __call__ / _next_timestamp and at lock operations",
         "clock readings are microsecond integers in 0..M (M <= 5); last starts at 0",
+        "generator configurations: warn_on_drift True/False x (warning_threshold, warning_interval) = (0, 0) / (1, 1)",
         "small scope: 3 threads, up to 3 calls each",
     ]
 
